@@ -25,8 +25,20 @@ pub struct Prepared {
 }
 
 pub struct World {
+    /// deterministic corpus (fixed seed)
     pub items: Vec<Prepared>,
+    /// corpus of VERIF_SEED, used by the seeded reader family
+    pub seeded_items: Vec<Prepared>,
     pub scale: u8,
+    /// valid data files for the query families, per `queries::TARGETS` index
+    pub data_infos: Vec<Vec<crate::queries::DataInfo>>,
+    /// bgzipped GFF text built from the GFF items of the deterministic corpus: (name, bytes)
+    pub gffgz: Vec<(String, Vec<u8>)>,
+    pub debug_budget_s: f64,
+    /// valid codec streams of the deterministic part
+    pub det_encodings: Vec<crate::codecs::Encoding>,
+    /// stored witnesses: (file name, expected signature, probe)
+    pub witnesses: Vec<(String, String, crate::probe::Probe)>,
 }
 
 fn transcript(kind: Kind, bytes: &[u8], side: &corpus::Side) -> Option<Vec<String>> {
@@ -93,7 +105,7 @@ pub fn prepare(item: Item, budget_us: f64, max_pos: usize) -> Prepared {
         .map(|&l| {
             let len = p.layer_len(l).max(p.item.bytes.len());
             let per_pos = (p.nsub(l) * p.item.kind.variants().len()) as f64 * (len as f64 * cost_per_byte(p.item.kind) + 15.0);
-            let cap = ((budget_us / per_pos) as usize).clamp(40, max_pos);
+            let cap = ((budget_us / per_pos) as usize).clamp(40.min(max_pos), max_pos);
             mutate::positions(p.layer_len(l), p.layer_boundaries(l), cap)
         })
         .collect();
@@ -164,9 +176,155 @@ impl World {
         let scale: u8 = ctx.budget("scale", 1, 2) as u8;
         let max_pos = ctx.budget("detpos", 100_000, 1_000_000) as usize;
         // CPU seconds the deterministic enumeration of one (item, layer) may cost (estimate)
-        let budget_us = ctx.budget("detbudget_s", 10, 200) as f64 * 1e6;
-        let items = corpus::items(DET_SEED, scale).into_iter().map(|it| prepare(it, budget_us, max_pos)).collect();
-        World { items, scale }
+        let budget_us = ctx.budget("detbudget_s", 8, 60) as f64 * 1e6;
+        let items: Vec<Prepared> = corpus::items(DET_SEED, scale).into_iter().map(|it| prepare(it, budget_us, max_pos)).collect();
+        let seeded_items: Vec<Prepared> =
+            if ctx.param("noseeded").is_some() { vec![] } else { corpus::items(ctx.seed, scale).into_iter().map(|it| prepare(it, 0.0, 1)).collect() };
+        let gffgz: Vec<(String, Vec<u8>)> = items
+            .iter()
+            .filter(|p| p.item.kind == Kind::Gff && p.item.name.contains("canonical"))
+            .map(|p| (format!("gffgz:{}", p.item.name), vcore::bgzf::reseal(&p.item.bytes, 4000)))
+            .collect();
+        let mut w = World {
+            items,
+            seeded_items,
+            scale,
+            data_infos: vec![],
+            gffgz,
+            debug_budget_s: ctx.param("debug_budget_s").and_then(|s| s.parse().ok()).unwrap_or(0.25),
+            det_encodings: crate::codecs::det_encodings(),
+            witnesses: vec![],
+        };
+        // stored witnesses of the known findings: <root>/findings/C15-witness-*.json
+        let root = ctx.replays.parent().map(|p| p.to_path_buf()).unwrap_or_default();
+        if let Ok(rd) = std::fs::read_dir(root.join("findings")) {
+            let mut names: Vec<_> = rd.filter_map(|e| e.ok()).map(|e| e.path()).filter(|p| p.file_name().map(|n| { let n = n.to_string_lossy(); n.starts_with("C15-witness-") && n.ends_with(".json") }).unwrap_or(false)).collect();
+            names.sort();
+            for p in names {
+                let Ok(text) = std::fs::read_to_string(&p) else { continue };
+                let Ok(v) = serde_json::from_str::<serde_json::Value>(&text) else { continue };
+                if let Some(probe) = crate::probe::Probe::from_json(&v["probe"]) {
+                    w.witnesses.push((p.file_name().unwrap().to_string_lossy().into_owned(), v["sig"].as_str().unwrap_or("").to_string(), probe));
+                }
+            }
+        }
+        w.data_infos = w.build_data_infos();
+        w
+    }
+
+    /// `Side` of a deterministic corpus item (CRAM reference, BED width); default when the name is unknown.
+    pub fn side_of(&self, name: &str, kind: Kind) -> corpus::Side {
+        if let Some(p) = self.items.iter().chain(self.seeded_items.iter()).find(|p| p.item.name == name) {
+            return p.item.side.clone();
+        }
+        // a witness may name an item of another scale: fall back to any item of the kind
+        self.items.iter().find(|p| p.item.kind == kind).map(|p| p.item.side.clone()).unwrap_or_default()
+    }
+
+    /// Bytes and side of the valid data file a query probe names.
+    pub fn data_of(&self, q: &crate::queries::Probe) -> (Vec<u8>, corpus::Side) {
+        use crate::queries::Probe as Q;
+        let name = match q {
+            Q::Binning { data, .. } | Q::Seek { data, .. } | Q::Gzi { data, .. } | Q::Fai { data, .. } | Q::Crai { data, .. } => data,
+        };
+        if let Some((_, b)) = self.gffgz.iter().find(|(n, _)| n == name) {
+            return (b.clone(), corpus::Side::default());
+        }
+        match self.items.iter().find(|p| &p.item.name == name) {
+            Some(p) => (p.item.bytes.clone(), p.item.side.clone()),
+            None => (Vec::new(), corpus::Side::default()),
+        }
+    }
+
+    fn build_data_infos(&self) -> Vec<Vec<crate::queries::DataInfo>> {
+        use crate::queries::DataInfo;
+        let blocks = |b: &[u8]| -> Vec<(u64, u64)> {
+            vcore::bgzf::walk_prefix(b).map(|(w, _)| w.members.iter().map(|m| (m.offset, m.data.len() as u64)).collect()).unwrap_or_default()
+        };
+        let sam_refs = |h: &noodles_sam::Header| -> (Vec<Vec<u8>>, Vec<usize>) {
+            (h.reference_sequences().keys().map(|k| k.to_vec()).collect(), h.reference_sequences().values().map(|v| usize::from(v.length())).collect())
+        };
+        let mut out: Vec<Vec<DataInfo>> = vec![vec![]; crate::queries::TARGETS.len()];
+        for p in &self.items {
+            let b = &p.item.bytes;
+            let mut d = DataInfo { name: p.item.name.clone(), len: b.len() as u64, ..Default::default() };
+            // large files make every query slow without adding shapes
+            if b.len() > 50_000 {
+                continue;
+            }
+            let r = vcore::guard::catch(|| -> Option<usize> {
+                match p.item.kind {
+                    Kind::Bam => {
+                        let h = noodles_bam::io::Reader::new(&b[..]).read_header().ok()?;
+                        (d.ref_names, d.ref_lens) = sam_refs(&h);
+                        d.blocks = blocks(b);
+                        Some(0)
+                    }
+                    Kind::SamGz => {
+                        let h = noodles_sam::io::Reader::new(noodles_bgzf::io::Reader::new(&b[..])).read_header().ok()?;
+                        (d.ref_names, d.ref_lens) = sam_refs(&h);
+                        d.blocks = blocks(b);
+                        Some(3)
+                    }
+                    Kind::Bcf | Kind::VcfGz => {
+                        let h = if p.item.kind == Kind::Bcf {
+                            noodles_bcf::io::Reader::new(&b[..]).read_header().ok()?
+                        } else {
+                            noodles_vcf::io::Reader::new(noodles_bgzf::io::Reader::new(&b[..])).read_header().ok()?
+                        };
+                        d.ref_names = h.contigs().keys().map(|k| k.as_bytes().to_vec()).collect();
+                        d.ref_lens = h.contigs().values().map(|c| c.length().unwrap_or(1000)).collect();
+                        d.blocks = blocks(b);
+                        Some(if p.item.kind == Kind::Bcf { 1 } else { 2 })
+                    }
+                    Kind::Bgzf => {
+                        d.blocks = blocks(b);
+                        Some(5)
+                    }
+                    Kind::Fasta => {
+                        for line in b.split(|&c| c == b'\n') {
+                            if let Some(rest) = line.strip_prefix(b">") {
+                                d.ref_names.push(rest.split(|c| c.is_ascii_whitespace()).next().unwrap_or(b"").to_vec());
+                                d.ref_lens.push(500);
+                            }
+                        }
+                        Some(7)
+                    }
+                    Kind::Cram => {
+                        let repo = noodles_fasta::Repository::default();
+                        let h = noodles_cram::io::reader::Builder::default().set_reference_sequence_repository(repo).build_from_reader(&b[..]).read_header().ok()?;
+                        (d.ref_names, d.ref_lens) = sam_refs(&h);
+                        d.containers = corpus::cram_layout(b).containers.iter().map(|&c| c as u64).collect();
+                        Some(8)
+                    }
+                    _ => None,
+                }
+            });
+            if let Ok(Some(t)) = r {
+                if t == 5 {
+                    out[6].push(d.clone());
+                }
+                out[t].push(d);
+            }
+        }
+        for (name, b) in &self.gffgz {
+            let mut d = DataInfo { name: name.clone(), len: b.len() as u64, blocks: blocks(b), ..Default::default() };
+            if let Ok((w, _)) = vcore::bgzf::walk_prefix(b) {
+                let text = w.concat();
+                for line in text.split(|&c| c == b'\n') {
+                    if !line.starts_with(b"#") {
+                        if let Some(first) = line.split(|&c| c == b'\t').next() {
+                            if !first.is_empty() && !d.ref_names.iter().any(|n| n == first) {
+                                d.ref_names.push(first.to_vec());
+                                d.ref_lens.push(5000);
+                            }
+                        }
+                    }
+                }
+            }
+            out[4].push(d);
+        }
+        out
     }
 
     pub fn det_probe_count(&self, item: usize, layer: Layer) -> usize {
@@ -198,7 +356,7 @@ impl World {
             let mut cpu = 0f64;
             for &v in it.item.kind.variants() {
                 let t0 = vcore::guard::thread_cpu_s();
-                let _ = crate::read_probe(it.item.kind, v, &it.item.bytes, &it.item.side);
+                let _ = crate::probe::read_probe(it.item.kind, v, &it.item.bytes, &it.item.side);
                 cpu += vcore::guard::thread_cpu_s() - t0;
             }
             let per: Vec<String> = it.layers.iter().map(|&l| format!("{}:{}pos/{}probes", l.name(), it.positions[it.layer_index(l)].len(), self.det_probe_count(i, l))).collect();
